@@ -48,6 +48,9 @@ func describe(v ssa.Value, depth int) string {
 				return "param:" + prm.Name()
 			}
 		}
+		if x.Comment != "" && x.Comment != "complit" && x.Comment != "varargs" {
+			return "local:" + x.Comment
+		}
 		return "new:" + shortType(x.Type())
 	case *ssa.MakeClosure:
 		return "closure:" + shortFuncName(x.Fn.(*ssa.Function))
@@ -179,9 +182,14 @@ func casesOf(fn *ssa.Function, tag ssa.Value, consts map[string]constant.Value, 
 	})
 	var out []caseResult
 	run := func(name string, val constant.Value) {
-		assume := map[ssa.Value]constant.Value{tag: val}
+		assume := map[ssa.Value]constant.Value{}
+		for _, t := range equivLoads(fn, tag) {
+			assume[t] = val
+		}
 		for k, v := range extra {
-			assume[k] = v
+			for _, t := range equivLoads(fn, k) {
+				assume[t] = v
+			}
 		}
 		w := &feWalker{Fn: fn, Assume: assume, Hook: hook}
 		ends := w.Run()
@@ -364,3 +372,45 @@ func mapLiteralOfVar(p *Program, rel, name string) ([]mapLitEntry, token.Pos, bo
 }
 
 func tokenEQLv() token.Token { return token.EQL }
+
+// equivLoads: all SSA values in fn that read the same single-assignment
+// location as tag (go/ssa does no CSE, so `t.Type` read twice is two values).
+func equivLoads(fn *ssa.Function, tag ssa.Value) []ssa.Value {
+	out := []ssa.Value{tag}
+	switch x := tag.(type) {
+	case *ssa.UnOp:
+		if x.Op != token.MUL {
+			return out
+		}
+		fa, ok := x.X.(*ssa.FieldAddr)
+		if !ok {
+			return out
+		}
+		base, ok := fa.X.(*ssa.Alloc)
+		if !ok || len(storesTo(base)) > 1 {
+			return out
+		}
+		// no stores through any FieldAddr of this field
+		for _, ref := range *base.Referrers() {
+			if fa2, ok := ref.(*ssa.FieldAddr); ok && fa2.Field == fa.Field && len(storesTo(fa2)) > 0 {
+				return out
+			}
+		}
+		for _, ref := range *base.Referrers() {
+			if fa2, ok := ref.(*ssa.FieldAddr); ok && fa2.Field == fa.Field {
+				for _, r2 := range *fa2.Referrers() {
+					if u, ok := r2.(*ssa.UnOp); ok && u.Op == token.MUL && u != x {
+						out = append(out, u)
+					}
+				}
+			}
+		}
+	case *ssa.Field:
+		for _, ref := range *x.X.Referrers() {
+			if f2, ok := ref.(*ssa.Field); ok && f2.Field == x.Field && f2 != x {
+				out = append(out, f2)
+			}
+		}
+	}
+	return out
+}
